@@ -88,6 +88,15 @@ func (ex *Exec) atReturn(st *State, r *ssa.Return) {
 	}
 	// type invariants of returned objects (constructors, setters returning the receiver)
 	if ex.fn.Synthetic == "" {
+		// ... and of the receiver, whose fields the method may have written
+		if recv := ex.fn.Signature.Recv(); recv != nil && len(ex.fn.Params) > 0 {
+			rv := st.vals[ex.fn.Params[0]]
+			for _, ti := range ex.typeInvsFor(recv.Type()) {
+				e := &Env{st: st, pkgPath: ti.PkgPath, info: ex.prog.infoFor(ti.PkgPath), vars: map[string]BVal{}, cur: st.heap, old: st.entry, allocLo: st.alloc0}
+				e.vars[ti.Recv.Name] = BVal{Val: rv}
+				st.check("typeinv/recv:"+ti.Name, "ensures", implies(neq(rv, st.u().zero(rv.Sort)), e.eval(ti.Requires[0].Expr)), "the receiver satisfies the type invariant at return: "+ti.Requires[0].Text, ti.Props, r.Pos())
+			}
+		}
 		for i, v := range r.Results {
 			for _, ti := range ex.typeInvsFor(v.Type()) {
 				e := &Env{st: st, pkgPath: ti.PkgPath, info: ex.prog.infoFor(ti.PkgPath), vars: map[string]BVal{}, cur: st.heap, old: st.entry, allocLo: st.alloc0}
@@ -789,6 +798,19 @@ func (ex *Exec) applyContract(st *State, c *ssa.Call, con0 *Contract, bindings [
 			ex.checkRefinement(st, envs[0], kc, argVals[k], tag+"#"+b.Name, pos)
 		}
 	}
+	// 0b. objects with a type invariant handed to a function of the declaring package satisfy it
+	if con0.Kind == "func" && c != nil {
+		for k, av := range argVals {
+			if k >= len(args) {
+				break
+			}
+			for _, ti := range ex.typeInvsIn(con0.PkgPath, av.Type()) {
+				e := &Env{st: st, pkgPath: ti.PkgPath, info: ex.prog.infoFor(ti.PkgPath), vars: map[string]BVal{}, cur: st.heap, old: st.heap, allocLo: st.alloc}
+				e.vars[ti.Recv.Name] = BVal{Val: args[k]}
+				st.check(fmt.Sprintf("typeinv@%s/%s", tag, ti.Name), "pre", implies(neq(args[k], st.u().zero(args[k].Sort)), e.eval(ti.Requires[0].Expr)), "object passed to "+con0.Name+" satisfies the type invariant: "+ti.Requires[0].Text, ti.Props, pos)
+			}
+		}
+	}
 	// 1. preconditions
 	for ci, con := range cons {
 		for k, cl := range con.Requires {
@@ -923,6 +945,18 @@ func (ex *Exec) applyContract(st *State, c *ssa.Call, con0 *Contract, bindings [
 			}
 			st.sc.comment("callee ensures %s", cl.Text)
 			st.sc.assert(e.eval(cl.Expr))
+		}
+	}
+	// objects returned by a function of a package that declares a type invariant satisfy it (checked at its returns)
+	if con0.Kind == "func" && c != nil {
+		sig := c.Common().Signature()
+		for k := range results {
+			for _, ti := range ex.typeInvsIn(con0.PkgPath, sig.Results().At(k).Type()) {
+				e := &Env{st: st, pkgPath: ti.PkgPath, info: ex.prog.infoFor(ti.PkgPath), vars: map[string]BVal{}, cur: st.heap, old: st.heap, allocLo: st.alloc}
+				e.vars[ti.Recv.Name] = BVal{Val: results[k]}
+				st.sc.comment("type invariant of the returned object")
+				st.sc.assert(implies(neq(results[k], st.u().zero(results[k].Sort)), e.eval(ti.Requires[0].Expr)))
+			}
 		}
 	}
 	if c != nil {
@@ -1255,6 +1289,70 @@ func (ex *Exec) closureDefAxiom(st *State, mc *ssa.MakeClosure, id Term) {
 		return
 	}
 	st.sc.emit("(assert (forall (%s) (! (= %s %s) :pattern (%s))))", strings.Join(binders, " "), lhs.S, body.S, lhs.S)
+}
+
+// closureRequiresAtMake: what a closure contract requires of its captured variables alone is
+// established where the closure is made (the variables are frozen from then on: closures whose
+// contracts are used this way assign none of them). Requirements that mention a parameter can
+// only be discharged by a caller: such a closure may flow into calls (as the callee or as an
+// argument with a `callee` contract) but not escape through conversions, stores or returns.
+func (ex *Exec) closureRequiresAtMake(st *State, mc *ssa.MakeClosure) {
+	fn := mc.Fn.(*ssa.Function)
+	fc := ex.prog.Contracts[keyOfFunction(fn)]
+	if fc == nil {
+		return
+	}
+	params := map[string]bool{}
+	for _, b := range fc.Params {
+		params[b.Name] = true
+	}
+	base := &Env{st: st, cur: st.heap, old: st.heap, ghost: st.ghost, ghost0: st.ghost, allocLo: st.alloc0}
+	fe := ex.closureEnv(st, fc, mc.Bindings, base)
+	ord := ex.ordinal[mc]
+	var conj func(e ast.Expr, out *[]ast.Expr)
+	conj = func(e ast.Expr, out *[]ast.Expr) {
+		if pe, ok := e.(*ast.ParenExpr); ok {
+			conj(pe.X, out)
+			return
+		}
+		if be, ok := e.(*ast.BinaryExpr); ok && be.Op == token.LAND {
+			conj(be.X, out)
+			conj(be.Y, out)
+			return
+		}
+		*out = append(*out, e)
+	}
+	needsCaller := false
+	k := 0
+	for _, cl := range fc.Requires {
+		var cs []ast.Expr
+		conj(cl.Expr, &cs)
+		for _, c := range cs {
+			mentions := false
+			ast.Inspect(c, func(n ast.Node) bool {
+				if id, ok := n.(*ast.Ident); ok && params[id.Name] {
+					mentions = true
+				}
+				return true
+			})
+			if mentions {
+				needsCaller = true
+				continue
+			}
+			k++
+			name := fmt.Sprintf("closure@make#%d:%s/#%d", ord, strings.TrimPrefix(fc.Name, ex.con.Name), k)
+			st.check(name, "pre", fe.eval(c), "captured variables satisfy what "+fc.Name+" requires of them: "+cl.Text, cl.Props, mc.Pos())
+		}
+	}
+	if needsCaller {
+		for _, r := range *mc.Referrers() {
+			switch r.(type) {
+			case *ssa.Call, *ssa.DebugRef:
+			default:
+				ex.abort("closure %s has requirements on its parameters but escapes through %T: only calls can discharge them", fc.Name, r)
+			}
+		}
+	}
 }
 
 // rangeSliceOf: for a rangeindex loop, the slice value indexed by the loop's index
